@@ -193,3 +193,18 @@ prop("C13", level="exploration", bounded=True,
           "lists and dictionaries, YAML and random are external; the union loop that uncompress relies on is proved under C04.",
      note="Exploration level. Known finding: tuple-coordinate tensors do not reload (safe_load rejects python/tuple).",
      trusted_base=["yaml, random (external)"])
+
+prop("C14", level="exploration", bounded=True,
+     technique="bounded: attributes of every transform result compared with values computed from the operand's; deductive core: build_elem active ranges",
+     text="Bounded (not proved): depth-2 trees over 2 coordinates x leaf default {0,1} x per-rank format assignments x mutability x authoritative/estimated "
+          "shape x every transform (split of each rank, swap, flatten/unflatten at every (depth, levels), all swizzles) and seeded random depth 3-4 "
+          "tensors: rank ids renamed as documented, shape re-arranged like the ids when authoritative, leaf default / formats / mutability carried over, "
+          "every stored coordinate inside the reported shape and its fiber's active range, active-range iteration == occupancy iteration; 3-rank tensors "
+          "with a different authoritative size per rank under all 6 permutations; lazily produced fibers (merges, populate, prune, projections) with "
+          "every combination of operand active ranges: rank id of the first operand / destination and the active range the operation defines; unowned "
+          "fibers joining a tensor. Proved core: the partition active ranges computed by build_elem (C08). The carry-over blocks of the Tensor "
+          "transforms are straight-line, but every setter goes through Rank/RankAttrs objects reached via dynamic owner delegation and getRankIds() "
+          "comprehensions, which the current contracts do not model.",
+     note="Exploration level. Known finding: multi-level flatten leaves a nested active range on flat tuple coordinates.",
+     also=["Splitter"],
+     trusted_base=[])
